@@ -117,6 +117,11 @@ class World:
                 shuffled.append(c)
             px = iter([pixel_frame(c) for c in shuffled])
             kw["ensure_sorted"] = True
+            if op["unsorted_seed"] % 4 >= 2:
+                kw.update(boundscheck=False, dupcheck=False, triucheck=False)
+            if not op["cuts"] and op["unsorted_seed"] % 3 == 0:
+                px = pixel_frame(shuffled[0])        # one in-memory table: sorted by create_cooler itself
+                kw = {}
         else:
             px = iter([pixel_frame(c) for c in chunks]) if op["cuts"] else pixel_frame(rows)
         bins_df = gen.bins_df(bt)
@@ -455,6 +460,9 @@ def check_index(case, ctx: Ctx):
             chunks = [[r for _, r in sorted(zip([(r[0], k) for r, k in zip(c, rng.rand(len(c)).tolist())], c), key=lambda t: t[0])]
                       for c in chunks]
             kw["ensure_sorted"] = True
+            if case.get("useed", 0) % 4 >= 2:
+                # the optional input checks switched off together with the sort request: the chunks must still be sorted
+                kw.update(boundscheck=False, dupcheck=False, triucheck=False)
         bdf = gen.bins_df(case["bt"])
         if case.get("useed", 0) % 2:
             bdf["chrom"] = bdf["chrom"].astype("category")      # categories in lexical order
@@ -463,8 +471,15 @@ def check_index(case, ctx: Ctx):
         if fl:
             chunks = [[[r[0], r[1], r[2] * 0.25, *r[3:]] for r in c] for c in chunks]
             kw["dtypes"] = {"count": np.dtype("float64")}
+        if case.get("unsorted") and not case["cuts"] and case.get("useed", 0) % 5 < 3:
+            # ONE in-memory table grouped by bin1_id with bin2_id in arbitrary order inside the groups (no sort request:
+            # create_cooler sorts in-memory tables itself)
+            kw.pop("ensure_sorted", None)
+            px = pixel_frame(chunks[0])
+        else:
+            px = iter([pixel_frame(c) for c in chunks])
         call("create_cooler (small index blocks)", cooler.create_cooler, path, bdf,
-             iter([pixel_frame(c) for c in chunks]), ordered=True, symmetric_upper=case["symmetric"], h5opts={"compression": None}, **kw)
+             px, ordered=True, symmetric_upper=case["symmetric"], h5opts={"compression": None}, **kw)
     finally:
         cc.rlencode = orig
     try:
